@@ -365,7 +365,14 @@ def _stage(seed, tier):
                 suspicious.append(r["pkg"])      # search for a failing execution where model and code disagree
     # isolation: each suspicious declaration also alone in its own package
     susp_recs = [r for r in S["records"] if r["kind"] == "valid" and r["id"] and r["decl"] and (r.get("model_mismatch") or r["problems"] or r.get("checker_code"))]
-    for i, r in enumerate(susp_recs[:10]):
+    # declarations with goroutines first (their locals are declared ahead, so a mis-ordered call still compiles and shows
+    # at run time as a wrong value), then the others; a compile failure of one kind must not use up all the slots
+    def _has_async(r):
+        return any(p.get("async") for p in r["decl"].get("provs", [])) if isinstance(r["decl"], dict) else False
+    with_go = [r for r in susp_recs if _has_async(r)]
+    without = [r for r in susp_recs if not _has_async(r)]
+    susp_recs = with_go[:8] + without[:8] if len(susp_recs) > 10 else susp_recs
+    for i, r in enumerate(susp_recs[:16]):
         iso = stage_s.isolate(mod, "iso%d" % i, r["decl"])
         if iso["rc"] == 0 and (iso["obs"] is not None or iso["sig"]):
             iso["model_mismatch"] = True
@@ -373,7 +380,7 @@ def _stage(seed, tier):
             suspicious.insert(0, "iso%d" % i)
     maxp = 4 if tier == "quick" else 24
     rest = [p for p in sorted(bypkg) if p not in suspicious]
-    pk_names = suspicious[:16] + [p for p in rest if p.startswith("kf")] + [p for p in rest if p.startswith("p")][:maxp] + [p for p in rest if p.startswith("y")]
+    pk_names = suspicious[:40] + [p for p in rest if p.startswith("kf")] + [p for p in rest if p.startswith("p")][:maxp] + [p for p in rest if p.startswith("y")]
     plans = {}
     for pk in pk_names:
         injs = []
